@@ -66,6 +66,8 @@ json.dump(o,open(B+"/overlay-sched.json","w"),indent=1)
 PY
   [ $? = 0 ] || exit 2
   go build -tags verif -overlay $B/overlay-sched.json -o $B/vcheck-sched ./cmd/vcheck || { echo "HARNESS-ERROR: scheduler harness build failed"; exit 2; }
+  # free-running race-detector build of the CLI (auxiliary pass of C17: sampling, decides nothing by silence)
+  (cd /repo && go build -race -o $B/git-sizer-race . ) || { echo "HARNESS-ERROR: -race build failed"; exit 2; }
 fi
 if [ "$what" = all ] || [ "$what" = fakegit ]; then
   go build -o $B/fakegit/git ./cmd/fakegit || { echo "HARNESS-ERROR: fakegit build failed"; exit 2; }
